@@ -111,6 +111,39 @@ func (k *kvs) list(key string) []uint64 {
 	}
 	return out
 }
+// pairs parses `a:b,a:b,…` or `-`.
+func (k *kvs) pairs(key string) [][2]uint64 {
+	s := k.s(key)
+	if s == "-" {
+		return nil
+	}
+	var out [][2]uint64
+	for _, p := range strings.Split(s, ",") {
+		ab := strings.Split(p, ":")
+		if len(ab) != 2 {
+			panic(badOp("bad pairs " + key))
+		}
+		a, err1 := strconv.ParseUint(ab[0], 10, 64)
+		b, err2 := strconv.ParseUint(ab[1], 10, 64)
+		if err1 != nil || err2 != nil {
+			panic(badOp("bad pairs " + key))
+		}
+		out = append(out, [2]uint64{a, b})
+	}
+	return out
+}
+
+func fmtPairs(v [][2]uint64) string {
+	if len(v) == 0 {
+		return "-"
+	}
+	s := make([]string, len(v))
+	for i, x := range v {
+		s[i] = fmt.Sprintf("%d:%d", x[0], x[1])
+	}
+	return strings.Join(s, ",")
+}
+
 func (k *kvs) sig(key string) sigKind {
 	s := k.s(key)
 	if !validSigKind(s) {
